@@ -541,6 +541,22 @@ def check_C11(ck):
             ps = [P0] * (ln - 1) + [g1.C.mul(P0, R - (ln - 1))]
             qs = [Q0] * ln
             cases.append(("multi/long-cancelling-len%d" % ln, "pairmulti %s %s" % (";".join(g1.A(P) for P in ps), ";".join(g2.A(Qp) for Qp in qs)))); exp.append(O.show_f12(O.F12_ONE))
+    # long lists whose blocks of 8 differ widely in COST: real pairs in one block, pairs with an identity member (which cost
+    # nothing to prepare) in the others.  Any batching / parallel preparation that reassembles blocks in completion order
+    # pairs the wrong elements exactly here.
+    if 0 in val and 1 in val:
+        for (cl, head_real) in (("multi/real-head-identity-tail-len40", True), ("multi/identity-head-real-tail-len40", False), ("multi/real-blocks-alternating-len48", None)):
+            ps, qs, prod = [], [], O.F12_ONE
+            n_ = 48 if head_real is None else 40
+            for j in range(n_):
+                blk = j // 8
+                real = (blk == 0) if head_real is True else (blk == n_ // 8 - 1) if head_real is False else (blk % 2 == 0)
+                i = j % 2
+                if real:
+                    ps.append(pool[i][0]); qs.append(pool[i][1]); prod = O.f12_mul(prod, val[i])
+                else:
+                    ps.append(pool[1 - i][0]); qs.append(None)
+            cases.append((cl, "pairmulti %s %s" % (";".join(g1.A(P) for P in ps), ";".join(g2.A(Qp) for Qp in qs)))); exp.append(O.show_f12(prod))
     # cancelling exponents: e(aP,Q) e(-aP,Q) = 1 ; sum a_i b_i = 0 mod r
     P, Qp = pool[0]
     a = rng.randrange(1, R)
@@ -2343,6 +2359,16 @@ def check_C20(ck):
                  "expand xof128 0102 51 11", "h2f fr xmd256 0102 51 1", "h2f fr xmd512 0102 51 3", "h2f fr xmd256 %s 51 1" % bytes(rng.randrange(256) for _ in range(7)).hex(),
                  "okm fq %s" % bytes(rng.randrange(256) for _ in range(64)).hex(), "okm fr %s" % bytes(rng.randrange(256) for _ in range(48)).hex(), "okm fq2 %s" % bytes(rng.randrange(256) for _ in range(128)).hex(),
                  "g1 enc_c %s" % g1.A(P), "fq12 frob %s 7" % O.show_f12(O.f12_unflat([rng.randrange(Q) for _ in range(12)]))]
+    # long pairing products whose blocks of 8 pairs differ widely in cost (real pairs / pairs with an identity G2 member):
+    # a parallel preparation that collects blocks in completion order depends on the scheduler exactly here
+    Pa, Qa, Pb, Qb = g1.sub_pt(rng), g2.sub_pt(rng), g1.sub_pt(rng), g2.sub_pt(rng)
+    for pat in ("r" + "i" * 4, "i" * 4 + "r", "ririri"):
+        ps, qs = [], []
+        for bi, blk in enumerate(pat):
+            for j in range(8):
+                ps.append(g1.C.mul(Pa if j % 2 == 0 else Pb, bi + 1))        # G1 members differ from block to block
+                qs.append(None if blk == "i" else (Qa if j % 2 == 0 else Qb))
+        work.append("pairmulti %s %s" % (";".join(g1.A(P) for P in ps), ";".join(g2.A(Qp) for Qp in qs)))
     base = ck.run([("sequential", w) for w in work])
     ref = [a for (a, _) in base]
     # sustained concurrent preparation of distinct G2 points (a racy process-wide memo needs thousands of overlapping calls)
